@@ -6,7 +6,7 @@ ENTRY = dict(
     technique="Lean 4 theorems over all frames / streams / configurations (envelope model shared with C01, byte-level network-info and "
               "program-version codecs, PyFrame equality model) + correspondence with Frame.bytes -> FrameReader.read -> fields -> .bytes, "
               "X(data=d).message -> X(message=...).data, and Python ==/!= on generated frame pairs",
-    prop_modules=["C03", "C03Object", "TieFrameObj", "TieFrameObjRun", "TieNetVersion", "TieNetInfo", "TieNetInfoEnc"],
+    prop_modules=["C03", "C03Object", "TieFrameObj", "TieFrameObjRun", "TieNetVersion", "TieNetInfo", "TieNetInfoEnc", "TieNetVersionEnc"],
     level_text=(
         "Proof: `C03.read_encode` shows for ALL frames that pass the reader's gates (<= 1000 bytes, addressed to the library or broadcast, "
         "known sender and kind) and ALL trailing bytes that reading the serialised bytes delivers exactly the same kind, addressing, versions "
